@@ -439,6 +439,34 @@ C14_L(cfg, opts, lg) ==
           /\ (lg.cs[c][k] # "NONE" => lg.cs[c][k + 1] # "NONE")
           /\ (lg.cs[c][k] = "FINISHED" => lg.cs[c][k + 1] = "FINISHED")>> >>
 
+\* =========================== C11 ===========================================
+\* (functions) run = [fn, mode, t, p, vals, inp, out, ret]
+C11_Key(cfg, run) ==
+  CASE run.fn = "worker"    -> WorkerKey(cfg, run.mode, run.t, run.p)
+    [] run.fn = "facility"  -> FacilityKey(cfg, run.mode, run.t)
+    [] run.fn = "task"      -> TaskKey(cfg, run.vals, run.mode)
+    [] run.fn = "workplace" -> WorkplaceKey(cfg, run.mode, run.t, run.vals.avail)
+C11_F(cfg, run) ==
+  << <<"C11.F.accepts-" \o run.fn \o "-" \o run.mode, run.ret = "ok">>,
+     <<"C11.F.permutation", run.ret = "ok" => IsPermutationOf(run.inp, run.out)>>,
+     <<"C11.F.ordered-" \o run.fn \o "-" \o run.mode,
+         run.ret = "ok" /\ IsPermutationOf(run.inp, run.out) => IsOrderedBy(run.out, C11_Key(cfg, run))>> >>
+\* conformance: Python's sorted() is stable
+C11_FConforms(cfg, run) == run.ret = "ok" /\ run.out = StableSortBy(run.inp, C11_Key(cfg, run))
+\* (allocation) no inversion: a worker newly given to t2 was not eligible for a strictly
+\* higher-priority open task that could still accept it
+C11_A(cfg, opts, ph, s0, s1, b) ==
+  IF ph # "allocated" \/ ~Working(opts, s1) THEN <<>>
+  ELSE
+  LET key == TaskKey(cfg, b, opts.rule)
+  IN << <<"C11.A.no-inversion", \A t2 \in Tasks(cfg): \A w \in ToSet(C04_NewW(b, s1, t2)):
+            \A t1 \in Tasks(cfg):
+               ~( /\ key[t1] < key[t2]
+                  /\ b.ts[t1] \in {"READY", "WORKING"}
+                  /\ ~cfg.tasks[t1].auto /\ ~cfg.tasks[t1].needF
+                  /\ EligibleW(cfg, w, t1)
+                  /\ C06_CanAccept(cfg, s1, t1, w) )>> >>
+
 \* =========================== C12 ===========================================
 C12_S(cfg, opts, ph, s) ==
   IF ph \notin {"updated"} \/ ~FSOnly(cfg) THEN <<>>
